@@ -260,6 +260,21 @@ fn rewrite_typed<L: Lit>(fmt: &str, data: &[u8], w: u8) -> Option<(Vec<String>, 
             w.flush().ok()?;
         }
         if w == 1 { same = out == data; }
+        if out.len() <= 1 << 16 {
+            let mut twice: Vec<u8> = vec![];
+            {
+                let mut w = DeferredWriter::from_write(&mut twice);
+                let wr = ascii::Writer::<L>::new(&mut w);
+                wr.write_aig(&a);
+                wr.write_aig(&a);
+                use std::io::Write;
+                w.flush().ok()?;
+            }
+            if twice.len() != 2 * out.len() || twice[..out.len()] != out[..] || twice[out.len()..] != out[..] {
+                let back = ascii::Parser::<L>::from_read(&twice[out.len().min(twice.len())..], ascii::Config::default()).and_then(|p| p.parse()).ok();
+                res.push(("ascii::Writer reused for a second document: write_aig", back.map(|b| aig_items(&b))));
+            }
+        }
         let b = ascii::Parser::<L>::from_read(&out[..], ascii::Config::default()).and_then(|p| p.parse()).ok();
         drop(out);
         let first = aig_items(&a);
@@ -276,6 +291,22 @@ fn rewrite_typed<L: Lit>(fmt: &str, data: &[u8], w: u8) -> Option<(Vec<String>, 
             w.writer.flush().ok()?;
         }
         if w == 1 { same = out == data; }
+        // the same writer object used for two documents in a row: the second document's bytes
+        // must be what a fresh writer emits (the writer carries a running literal counter)
+        if out.len() <= 1 << 16 {
+            let mut twice: Vec<u8> = vec![];
+            {
+                let mut w = binary::Writer::<L>::new(DeferredWriter::from_write(&mut twice));
+                w.write_ordered_aig(&a);
+                w.write_ordered_aig(&a);
+                use std::io::Write;
+                w.writer.flush().ok()?;
+            }
+            if twice.len() != 2 * out.len() || twice[..out.len()] != out[..] || twice[out.len()..] != out[..] {
+                let back = binary::Parser::<L>::from_read(&twice[out.len().min(twice.len())..], binary::Config::default()).and_then(|p| p.parse()).ok();
+                res.push(("binary::Writer reused for a second document: write_ordered_aig", back.map(|b| ordered_items(&b))));
+            }
+        }
         let b = binary::Parser::<L>::from_read(&out[..], binary::Config::default()).and_then(|p| p.parse()).ok();
         drop(out);
         let first = ordered_items(&a);
